@@ -9,6 +9,7 @@ import (
 	"sync"
 
 	"github.com/ipld/go-storethehash/store/types"
+	"github.com/ipld/go-storethehash/store/vhook"
 )
 
 const CIDSizePrefix = 4
@@ -82,6 +83,7 @@ func (cp *FreeList) Flush() (types.Work, error) {
 	cp.blockPool = make([]types.Block, 0, blockPoolSize)
 	cp.outstandingWork = 0
 	cp.poolLk.Unlock()
+	vhook.At("fl.flush.swapped")
 
 	// The pool lock is released allowing Put to write to nextPool. The
 	// flushLock is still held, preventing concurrent flushes from changing the
@@ -99,11 +101,13 @@ func (cp *FreeList) Flush() (types.Work, error) {
 		}
 		work += blockWork
 	}
+	vhook.At("fl.flush.before-write")
 	err := cp.writer.Flush()
 	if err != nil {
 		return 0, fmt.Errorf("cannot flush data to freelist file %s: %w", cp.file.Name(), err)
 	}
 
+	vhook.At("fl.flush.written")
 	return work, nil
 }
 
@@ -118,6 +122,7 @@ func (cp *FreeList) Sync() error {
 // Close calls Flush to write work and data to the freelist file, and then
 // closes the file.
 func (cp *FreeList) Close() error {
+	vhook.At("fl.close.entry")
 	_, err := cp.Flush()
 	if err != nil {
 		cp.file.Close()
@@ -175,6 +180,7 @@ func (fl *FreeList) StorageSize() (int64, error) {
 // freelist file while allowing the freelist to continue to operate on a new
 // file.
 func (cp *FreeList) ToGC() (string, error) {
+	vhook.At("fl.togc.entry")
 	fileName := cp.file.Name()
 	workFilePath := fileName + ".gc"
 
@@ -193,23 +199,28 @@ func (cp *FreeList) ToGC() (string, error) {
 		return "", err
 	}
 
+	vhook.At("fl.togc.flushed")
 	cp.flushLock.Lock()
 	defer cp.flushLock.Unlock()
 
 	// Flush any buffered data and close the file. Safe to do with flushLock
 	// acquired.
+	vhook.At("fl.togc.before-close")
 	cp.writer.Flush()
 	cp.file.Close()
+	vhook.At("fl.togc.before-rename")
 	err = os.Rename(fileName, workFilePath)
 	if err != nil {
 		return "", err
 	}
 
+	vhook.At("fl.togc.renamed")
 	cp.file, err = os.OpenFile(fileName, os.O_RDWR|os.O_APPEND|os.O_CREATE, 0o644)
 	if err != nil {
 		return "", err
 	}
 	cp.writer.Reset(cp.file)
+	vhook.At("fl.togc.reopened")
 
 	return workFilePath, nil
 }
